@@ -170,7 +170,7 @@ def member_contract(stub=False):
                         && args_ast@ =~= arg_asts(l0.items, it.index@ as int)
                         && node_view(args_node.inner) is Code && node_view(args_node.inner)->Code_0 =~= arg_pushes(l0.items, it.index@ as int)
                         && args_node.details@ =~= arg_details(l0.items, it.index@ as int)""", ('C17', 'C10', 'C02'))]),
-               2: dict(ghost='it', invariant=[('span_so_far', 'range == span_fold(a_loc(primary_ast), member_prime_ast@, it.index@ as int)', ('C18',))])},
+               2: dict(header='for m in member_prime_ast.iter()', ghost='it', invariant=[('span_so_far', 'range == span_fold(a_loc(primary_ast), member_prime_ast@, it.index@ as int)', ('C18',))])},
         arm_begin={'Some(&TokenWithLoc { token: Token::Dot, loc: dot_loc, })': 'let dot_loc: SourceRange = *dot_loc;',
                    'Some(&TokenWithLoc { token: Token::LParen, loc, })': 'let loc: SourceRange = *loc;',
                    'Some(&TokenWithLoc { token: Token::LBracket, loc, })': 'let loc: SourceRange = *loc;'},
